@@ -3,6 +3,7 @@ import Skc.Lemmas.Pen
 import Skc.Lemmas.PeltCorollaries
 import Skc.Lemmas.Congr
 import Skc.Lemmas.Tables
+import Skc.Lemmas.GaussCov
 import Mathlib.Algebra.Order.BigOperators.Group.List
 
 /-! # C12 — detections respect the model's symmetries: permutation, shift, scale, reversal
@@ -170,6 +171,26 @@ theorem pelt_gauss_shift_invariant (x : ℕ → ℝ) (c pen : ℝ) (m n : ℕ) (
   simp only [gaussTable]
   rw [segSum_shift x c s e hse.le, segSum_sq_shift x c s e hse.le]
   exact gaussOptim_shift_invariant _ _ _ c hne
+
+/-! ### multivariate Gaussian cost (from the rows) -/
+
+/-- **C12, shift, multivariate**: the sample covariance of the rows `[s, e)` — hence the multivariate
+    Gaussian cost and its change score — is unchanged by adding a constant vector to every row -/
+theorem gcov_shift_invariant {p : ℕ} (x : ℕ → Fin p → ℝ) (c : Fin p → ℝ) (s k e : ℕ) (h1 : s < k) (h2 : k < e) :
+    covMat (fun i j => x i j + c j) s e = covMat x s e ∧
+    gcovCost (fun i j => x i j + c j) s e = gcovCost x s e ∧
+    gcovChange (fun i j => x i j + c j) s k e = gcovChange x s k e :=
+  ⟨covMat_shift x c s e (by omega), gcovCost_shift x c s e (by omega), gcovChange_shift x c s k e h1 h2⟩
+
+/-- **C12, scale, multivariate**: multiplying the data by `a > 0` multiplies the covariance by `a²`,
+    adds `(e − s) p log a²` to the cost, and leaves the change score unchanged whenever the three
+    sample covariances are non-singular (positive determinant) -/
+theorem gcov_scale_invariant {p : ℕ} (x : ℕ → Fin p → ℝ) (a : ℝ) (ha : 0 < a) (s k e : ℕ)
+    (hd : 0 < (covMat x s e).det) (hd1 : 0 < (covMat x s k).det) (hd2 : 0 < (covMat x k e).det) :
+    covMat (fun i j => a * x i j) s e = (a ^ 2) • covMat x s e ∧
+    gcovCost (fun i j => a * x i j) s e = gcovCost x s e + ((e : ℝ) - s) * p * Real.log (a ^ 2) ∧
+    gcovChange (fun i j => a * x i j) s k e = gcovChange x s k e :=
+  ⟨covMat_scale x a s e, gcovCost_scale x a ha s e hd, gcovChange_scale x a ha s k e hd hd1 hd2⟩
 
 /-! ### time reversal -/
 
